@@ -87,6 +87,15 @@ int main()
             subs(e, ss);
             for (auto& q : ss) if (q.get_kind() == Constants::IDENTIFIER && q.get_symbol() == s) occurs = true;
             note("subst.changes-iff-symbol-occurs", occurs != r7.equal(e));
+            // exactly the identifier occurrences are replaced: none is left, and the result differs from e in nothing else
+            std::vector<expression_t> rs;
+            subs(r7, rs);
+            size_t left = 0, before_n = 0;
+            for (auto& q : rs) if (q.get_kind() == Constants::IDENTIFIER && q.get_symbol() == s) left++;
+            for (auto& q : ss) if (q.get_kind() == Constants::IDENTIFIER && q.get_symbol() == s) before_n++;
+            note("subst.replaces-every-occurrence", left == 0);
+            note("subst.keeps-the-tree-shape", rs.size() == ss.size());
+            (void)before_n;
             note("subst.source-unchanged", e.str() == before);
         }
         for (auto& o : all) {
